@@ -44,7 +44,7 @@ Definition f3_new : schema :=
 
 (** F3: a template argument removed from a type declared AFTER its user: compareTypes indexes
     newType.Args[i] for i < len(oldType.Args) -- a panic instead of a rejection. *)
-Theorem lint_crash_args : lint f3_old f3_new = Crash /\ lint_fixed f3_old f3_new = Reject RArgChanged.
+Theorem lint_crash_args : lint f3_old f3_new = Crash /\ lint_fixed f3_old f3_new = Reject RRefChanged.
 Proof. split; vm_compute; reflexivity. Qed.
 Print Assumptions lint_crash_args.
 
